@@ -560,6 +560,30 @@ save_expansion(Expansion &expansion, const string &exp, const vector_string &par
         paste = false;
         last = p;
       }
+    } else if (isdigit(exp[p])) {
+      // A number; it may contain digit separators, which are not quotes.
+      ++p;
+      while (p < exp.size() &&
+             (isalnum(exp[p]) || exp[p] == '_' || exp[p] == '.' ||
+              (exp[p] == '\'' && p + 1 < exp.size() && isalnum(exp[p + 1])))) {
+        ++p;
+      }
+
+    } else if (exp[p] == '"' || exp[p] == '\'') {
+      // A string or character literal.  Parameters are not substituted, and #
+      // is not an operator, within it.
+      char quote = exp[p];
+      ++p;
+      while (p < exp.size() && exp[p] != quote) {
+        if (exp[p] == '\\' && p + 1 < exp.size()) {
+          ++p;
+        }
+        ++p;
+      }
+      if (p < exp.size()) {
+        ++p;
+      }
+
     } else if (exp[p] == '#') {
       // This may be a stringification operator.
       if (last != p) {
